@@ -1,56 +1,86 @@
 ------------------------------- MODULE SockOpt -------------------------------
 (* Socket time-limit tracking (property C19): core/src/syscall/unix/mod.rs     *)
-(* (send_time_limit / recv_time_limit with their per-descriptor caches),       *)
-(* setsockopt.rs and close.rs.  Descriptor *numbers* are reused after close.   *)
-(* kern[fd][dir] is the socket's option value in the kernel (0 = no timeout),  *)
-(* cache[fd][dir] what the runtime remembers (-1 = no entry).              *)
-(* Named deviations (code before the fix):                                     *)
+(* (send_time_limit / recv_time_limit with their caches), setsockopt.rs and    *)
+(* close.rs.  Descriptor *numbers* are reused after close, and several numbers *)
+(* can belong to one socket (dup - TcpStream::try_clone): the options are the  *)
+(* socket's.  sock[f] is the socket behind number f (0 = closed; socket        *)
+(* identities - inode numbers - are reused as well), kern[s][dir] the socket's *)
+(* option value in the kernel (0 = no timeout), cacheS / cacheN what the       *)
+(* runtime remembers per socket / per number (-1 = no entry).                  *)
+(* Intended design (Deviations = {}): what is remembered is remembered for the *)
+(* socket, and forgotten whenever one of its numbers is closed (the last close *)
+(* frees the identity for reuse; which close is the last cannot be known).     *)
+(* Named deviations:                                                           *)
 (*   "setopt_assert"      setting an option whose cache entry exists aborts    *)
-(*   "close_keeps_cache"  close leaves the entries, a reused number starts     *)
-(*                        with the old socket's limits                         *)
+(*                        (code before the first round's fix)                  *)
+(*   "close_keeps_cache"  close leaves the entries, a reused number / identity *)
+(*                        starts with the old socket's limits                  *)
+(*   "cache_per_number"   the entries belong to the number (code before the    *)
+(*                        third round's fix): an option set through one number *)
+(*                        is not seen by calls on another number of the socket *)
 EXTENDS Naturals, Integers, Sequences, FiniteSets, TLC, Json
 
 CONSTANTS Fds, Tvs, MaxOps, Deviations   \* Tvs: option values, 0 = none
 Dirs == {"snd", "rcv"}
-VARIABLES open, kern, cache, dead, viol, hist
-vars == <<open, kern, cache, dead, viol, hist>>
-view == <<open, kern, cache, dead, viol, Len(hist)>>
+Socks == 1..Cardinality(Fds)
+PerNumber == "cache_per_number" \in Deviations
+VARIABLES sock, kern, cacheS, cacheN, dead, viol, hist
+vars == <<sock, kern, cacheS, cacheN, dead, viol, hist>>
+view == <<sock, kern, cacheS, cacheN, dead, viol, Len(hist)>>
 
-Init == /\ open = [f \in Fds |-> FALSE] /\ kern = [f \in Fds |-> [d \in Dirs |-> 0]]
-        /\ cache = [f \in Fds |-> [d \in Dirs |-> -1]] /\ dead = FALSE /\ viol = "none" /\ hist = <<>>
+None == [d \in Dirs |-> -1]
+Init == /\ sock = [f \in Fds |-> 0] /\ kern = [s \in Socks |-> [d \in Dirs |-> 0]]
+        /\ cacheS = [s \in Socks |-> None] /\ cacheN = [f \in Fds |-> None]
+        /\ dead = FALSE /\ viol = "none" /\ hist = <<>>
 Go == ~dead /\ viol = "none" /\ Len(hist) < MaxOps
+Open(f) == sock[f] # 0
+Live == {sock[f] : f \in {g \in Fds : Open(g)}}
+LowestFree(f) == ~Open(f) /\ \A g \in Fds : g < f => Open(g)
+Cached(f, d) == IF PerNumber THEN cacheN[f][d] ELSE cacheS[sock[f]][d]
+Remember(f, d, v) == IF PerNumber THEN cacheN' = [cacheN EXCEPT ![f][d] = v] /\ UNCHANGED cacheS
+                     ELSE cacheS' = [cacheS EXCEPT ![sock[f]][d] = v] /\ UNCHANGED cacheN
 
-Socket(f) == /\ Go /\ ~open[f] /\ \A g \in Fds : g < f => open[g]      \* lowest free number
-             /\ open' = [open EXCEPT ![f] = TRUE] /\ kern' = [kern EXCEPT ![f] = [d \in Dirs |-> 0]]
+Socket(f) == /\ Go /\ LowestFree(f)
+             /\ LET s == CHOOSE x \in Socks : x \notin Live /\ \A y \in Socks : y < x => y \in Live IN
+                sock' = [sock EXCEPT ![f] = s] /\ kern' = [kern EXCEPT ![s] = [d \in Dirs |-> 0]]
              /\ hist' = Append(hist, [op |-> "socket", fd |-> f])
-             /\ UNCHANGED <<cache, dead, viol>>
+             /\ UNCHANGED <<cacheS, cacheN, dead, viol>>
+\* a second number for the socket behind g
+Dup(f, g) == /\ Go /\ LowestFree(f) /\ Open(g)
+             /\ sock' = [sock EXCEPT ![f] = sock[g]]
+             /\ hist' = Append(hist, [op |-> "dup", fd |-> f, from |-> g])
+             /\ UNCHANGED <<kern, cacheS, cacheN, dead, viol>>
 SetOpt(f, d, tv) ==
-  /\ Go /\ open[f]
+  /\ Go /\ Open(f)
   /\ hist' = Append(hist, [op |-> "setopt", fd |-> f, dir |-> d, tv |-> tv])
-  /\ kern' = [kern EXCEPT ![f][d] = tv]
-  /\ IF "setopt_assert" \in Deviations /\ cache[f][d] # -1
-     THEN dead' = TRUE /\ viol' = "abort" /\ UNCHANGED cache
-     ELSE cache' = [cache EXCEPT ![f][d] = tv] /\ UNCHANGED <<dead, viol>>
-  /\ UNCHANGED open
+  /\ kern' = [kern EXCEPT ![sock[f]][d] = tv]
+  /\ IF "setopt_assert" \in Deviations /\ Cached(f, d) # -1
+     THEN dead' = TRUE /\ viol' = "abort" /\ UNCHANGED <<cacheS, cacheN>>
+     ELSE Remember(f, d, tv) /\ UNCHANGED <<dead, viol>>
+  /\ UNCHANGED sock
 \* a hooked call applies the limit of its direction (and remembers it)
 Io(f, d) ==
-  /\ Go /\ open[f]
+  /\ Go /\ Open(f)
   /\ hist' = Append(hist, [op |-> "io", fd |-> f, dir |-> d])
-  /\ LET applied == IF cache[f][d] = -1 THEN kern[f][d] ELSE cache[f][d] IN
-     /\ viol' = IF applied # kern[f][d] THEN "stale_limit" ELSE viol
-     /\ cache' = [cache EXCEPT ![f][d] = applied]
-  /\ UNCHANGED <<open, kern, dead>>
+  /\ LET applied == IF Cached(f, d) = -1 THEN kern[sock[f]][d] ELSE Cached(f, d) IN
+     /\ viol' = IF applied # kern[sock[f]][d] THEN "stale_limit" ELSE viol
+     /\ Remember(f, d, applied)
+  /\ UNCHANGED <<sock, kern, dead>>
 Close(f) ==
-  /\ Go /\ open[f]
+  /\ Go /\ Open(f)
   /\ hist' = Append(hist, [op |-> "close", fd |-> f])
-  /\ open' = [open EXCEPT ![f] = FALSE]
-  /\ cache' = IF "close_keeps_cache" \in Deviations THEN cache ELSE [cache EXCEPT ![f] = [d \in Dirs |-> -1]]
+  /\ sock' = [sock EXCEPT ![f] = 0]
+  /\ IF "close_keeps_cache" \in Deviations THEN UNCHANGED <<cacheS, cacheN>>
+     ELSE IF PerNumber THEN cacheN' = [cacheN EXCEPT ![f] = None] /\ UNCHANGED cacheS
+     ELSE cacheS' = [cacheS EXCEPT ![sock[f]] = None] /\ UNCHANGED cacheN
   /\ UNCHANGED <<kern, dead, viol>>
-Next == \E f \in Fds : Socket(f) \/ Close(f) \/ \E d \in Dirs : Io(f, d) \/ \E tv \in Tvs : SetOpt(f, d, tv)
+Next == \E f \in Fds : \/ Socket(f) \/ Close(f)
+                       \/ \E g \in Fds : Dup(f, g)
+                       \/ \E d \in Dirs : Io(f, d) \/ \E tv \in Tvs : SetOpt(f, d, tv)
 Spec == Init /\ [][Next]_vars
 
 \* C19: the limit a hooked call applies is the socket's current option value; nothing aborts
 NoViolation == viol = "none"
-CacheSound == \A f \in Fds, d \in Dirs : (open[f] /\ cache[f][d] # -1) => cache[f][d] = kern[f][d]
+CacheSound == \A f \in Fds, d \in Dirs : (Open(f) /\ Cached(f, d) # -1) => Cached(f, d) = kern[sock[f]][d]
 DumpHist == (Len(hist) = MaxOps) => PrintT(<<"REPLAY", ToJson(hist)>>)
 =============================================================================
